@@ -614,3 +614,52 @@ _run_c01 = run
 def run(ctx, R):
     _run_c01(ctx, R)
     r17(ctx, R)
+
+
+def r18(ctx, R):
+    """One key, one provider.  The allocation handlers turn the providers
+    named in a body into Allocation objects through the dict built by
+    _resource_providers_by_uuid, one object per (key, class); the per-object
+    unit checks and the running per-(provider, class) sum assume that two
+    keys are two providers.  That holds only while each provider is looked
+    up under exactly the text it is filed under - a lookup under a
+    normalised or otherwise derived spelling lets one provider appear under
+    two keys, and a consumer then holds the sum of two amounts each of which
+    passed max_unit on its own."""
+    prog = ctx.prog
+    f = prog.func('placement.handlers.allocation:_resource_providers_by_uuid')
+    GET = 'placement.objects.resource_provider:ResourceProvider.get_by_uuid'
+    n = 0
+    bad = []
+    for st in own_nodes(f.node):
+        if not isinstance(st, ast.Assign):
+            continue
+        for t in st.targets:
+            if not isinstance(t, ast.Subscript):
+                continue
+            v = C.inline_locals(f, st.value)
+            calls = [c for c in ast.walk(st.value) if isinstance(c, ast.Call)
+                     and GET in C.call_name(ctx, f, c)]
+            if not calls:
+                continue
+            n += 1
+            c = calls[0]
+            a = c.args[1] if len(c.args) > 1 else C.kwarg(c, 'uuid')
+            key = C.inline_locals(f, t.slice)
+            arg = C.inline_locals(f, a) if a is not None else None
+            if arg is None or src(arg) != src(key):
+                bad.append('filed under %s, looked up by %s' % (
+                    src(t.slice), src(a) if a is not None else None))
+    R.ob('R1.8', 'providers-by-uuid:key-is-lookup', n >= 1 and not bad,
+         'every provider object is filed under exactly the uuid text it was '
+         'looked up by (two keys can never be one provider)', bad or
+         '%d stores' % n, func=f)
+    R.count('R1.8', n, 1)
+
+
+_run_c01b = run
+
+
+def run(ctx, R):
+    _run_c01b(ctx, R)
+    r18(ctx, R)
